@@ -26,7 +26,8 @@ type Client struct {
 }
 
 func Start(path string, orc Oracle) (*Client, error) {
-	cmd := exec.Command(path)
+	// the extracted code recurses over long byte lists: give it an unlimited C stack
+	cmd := exec.Command("/bin/sh", "-c", "ulimit -s unlimited 2>/dev/null || ulimit -s 8000000 2>/dev/null; exec \"$0\"", path)
 	in, err := cmd.StdinPipe()
 	if err != nil {
 		return nil, err
